@@ -220,6 +220,9 @@ def check(s):
         okh = htype == "NotImplementedError" and value_of(h.body) == want
         s.ob("C15.4", "AbstractTransformedDistribution.mode", okh, "on NotImplementedError the mode falls back to bijector.forward(base.mode())", loc, key="mode-fallback",
              detail=ast.unparse(h)[:200], necessary_for="the mode of a squashed law lies in the support [low, high]")
+    # ---------------------------------------------------------------- C15.6 a masked law is a law again (total mass 1, prob = exp(log_prob))
+    from .C16 import check_mask_laws
+    check_mask_laws(s, "C15.6")
     # ---------------------------------------------------------------- C15.5 parameter wiring of the constructors and accessors
     check_params(s)
     from .util import fields_initialised
